@@ -1,0 +1,458 @@
+//go:build verif
+
+// Contracts for the deductive verification harness in /verif (govc).
+// This file contains comments only; it is compiled only under the build tag "verif".
+package sshfx
+
+//@ pred bufOK(b *Buffer) = b != nil && 0 <= b.off && b.off <= len(b.b)
+
+// ---------------------------------------------------------------------------
+// trusted library contracts
+
+//@ func (encoding/binary.bigEndian).Uint16
+//@   trusted
+//@   requires len(b) >= 2
+//@   ensures result == uint16(b[0])<<8 | uint16(b[1])
+//@   modifies nothing
+
+//@ func (encoding/binary.bigEndian).Uint32
+//@   trusted
+//@   requires len(b) >= 4
+//@   ensures result == be32(b, 0)
+//@   modifies nothing
+
+//@ func (encoding/binary.bigEndian).Uint64
+//@   trusted
+//@   requires len(b) >= 8
+//@   ensures result == be64(b, 0)
+//@   modifies nothing
+
+//@ func (encoding/binary.bigEndian).PutUint32
+//@   trusted
+//@   requires len(b) >= 4
+//@   modifies bytes
+
+// ---------------------------------------------------------------------------
+// Buffer (buffer.go)
+
+//@ func NewBuffer
+//@   property C08, C06
+//@   ensures result != nil && result.b == buf && result.off == 0 && result.Err == nil
+//@   modifies nothing
+
+//@ func (*Buffer).Len
+//@   property C08, C06
+//@   requires bufOK(b)
+//@   ensures result == len(b.b) - b.off
+//@   modifies nothing
+
+//@ func (*Buffer).Bytes
+//@   property C08, C06
+//@   requires bufOK(b)
+//@   ensures result == b.b[b.off:]
+//@   modifies nothing
+
+//@ func unmarshalUint32
+//@   property C08
+//@   requires cap(b) >= 4
+//@   ensures result == be32(b, 0)
+//@   modifies nothing
+
+//@ func (*Buffer).ConsumeUint8
+//@   property C08, C06
+//@   requires bufOK(b)
+//@   ensures bufOK(b) && b.b == old(b.b) && b.off >= old(b.off)
+//@   ensures old(b.Err) != nil ==> b.Err == old(b.Err) && b.off == old(b.off) && result == 0
+//@   ensures old(b.Err) == nil && len(b.b) - old(b.off) >= 1 ==> b.Err == nil && b.off == old(b.off) + 1 && result == b.b[old(b.off)]
+//@   ensures old(b.Err) == nil && len(b.b) - old(b.off) < 1 ==> b.Err == ErrShortPacket && b.off == len(b.b) && result == 0
+//@   modifies *b
+
+//@ func (*Buffer).ConsumeBool
+//@   property C08
+//@   requires bufOK(b)
+//@   ensures bufOK(b) && b.b == old(b.b) && b.off >= old(b.off)
+//@   ensures old(b.Err) != nil ==> b.Err != nil
+//@   modifies *b
+
+//@ func (*Buffer).ConsumeUint16
+//@   property C08
+//@   requires bufOK(b)
+//@   ensures bufOK(b) && b.b == old(b.b) && b.off >= old(b.off)
+//@   ensures old(b.Err) != nil ==> b.Err == old(b.Err) && b.off == old(b.off) && result == 0
+//@   ensures old(b.Err) == nil && len(b.b) - old(b.off) >= 2 ==> b.Err == nil && b.off == old(b.off) + 2
+//@   ensures old(b.Err) == nil && len(b.b) - old(b.off) < 2 ==> b.Err == ErrShortPacket && b.off == len(b.b) && result == 0
+//@   modifies *b
+
+//@ func (*Buffer).ConsumeUint32
+//@   property C08, C06
+//@   requires bufOK(b)
+//@   ensures bufOK(b) && b.b == old(b.b) && b.off >= old(b.off)
+//@   ensures old(b.Err) != nil ==> b.Err == old(b.Err) && b.off == old(b.off) && result == 0
+//@   ensures old(b.Err) == nil && len(b.b) - old(b.off) >= 4 ==> b.Err == nil && b.off == old(b.off) + 4 && result == be32(b.b, old(b.off))
+//@   ensures old(b.Err) == nil && len(b.b) - old(b.off) < 4 ==> b.Err == ErrShortPacket && b.off == len(b.b) && result == 0
+//@   modifies *b
+
+//@ func (*Buffer).ConsumeCount
+//@   property C08
+//@   requires bufOK(b)
+//@   ensures bufOK(b) && b.b == old(b.b) && b.off >= old(b.off)
+//@   ensures 0 <= result && result <= 0xffffffff
+//@   ensures old(b.Err) != nil ==> b.Err == old(b.Err) && b.off == old(b.off) && result == 0
+//@   ensures old(b.Err) == nil && len(b.b) - old(b.off) >= 4 ==> b.Err == nil && b.off == old(b.off) + 4
+//@   ensures old(b.Err) == nil && len(b.b) - old(b.off) < 4 ==> b.Err == ErrShortPacket && b.off == len(b.b) && result == 0
+//@   modifies *b
+
+//@ func (*Buffer).ConsumeUint64
+//@   property C08, C06
+//@   requires bufOK(b)
+//@   ensures bufOK(b) && b.b == old(b.b) && b.off >= old(b.off)
+//@   ensures old(b.Err) != nil ==> b.Err == old(b.Err) && b.off == old(b.off) && result == 0
+//@   ensures old(b.Err) == nil && len(b.b) - old(b.off) >= 8 ==> b.Err == nil && b.off == old(b.off) + 8 && result == be64(b.b, old(b.off))
+//@   ensures old(b.Err) == nil && len(b.b) - old(b.off) < 8 ==> b.Err == ErrShortPacket && b.off == len(b.b) && result == 0
+//@   modifies *b
+
+//@ func (*Buffer).ConsumeInt64
+//@   property C08
+//@   requires bufOK(b)
+//@   ensures bufOK(b) && b.b == old(b.b) && b.off >= old(b.off)
+//@   ensures old(b.Err) != nil ==> b.Err != nil
+//@   modifies *b
+
+//@ func (*Buffer).ConsumeByteSlice
+//@   property C08, C06
+//@   requires bufOK(b)
+//@   ensures bufOK(b) && b.b == old(b.b) && b.off >= old(b.off)
+//@   ensures old(b.Err) != nil ==> b.Err == old(b.Err) && b.off == old(b.off) && result == nil
+//@   ensures b.Err != nil ==> result == nil
+//@   ensures old(b.Err) == nil && b.Err == nil ==> len(b.b) - old(b.off) >= 4 && len(result) == int(be32(b.b, old(b.off))) && b.off == old(b.off) + 4 + len(result)
+//@   ensures old(b.Err) == nil && b.Err != nil ==> b.Err == ErrShortPacket && b.off == len(b.b)
+//@   ensures len(result) <= len(b.b) - old(b.off)
+//@   modifies *b
+
+//@ func (*Buffer).ConsumeByteSliceCopy
+//@   property C08
+//@   alloc-bound 2*len(b.b) + 2*len(hint) + 128
+//@   requires bufOK(b)
+//@   ensures bufOK(b) && b.b == old(b.b) && b.off >= old(b.off)
+//@   ensures old(b.Err) != nil ==> b.Err != nil
+//@   modifies *b, bytes
+
+//@ func (*Buffer).ConsumeString
+//@   property C08, C06
+//@   requires bufOK(b)
+//@   ensures bufOK(b) && b.b == old(b.b) && b.off >= old(b.off)
+//@   ensures old(b.Err) != nil ==> b.Err == old(b.Err) && b.off == old(b.off) && len(result) == 0
+//@   ensures b.Err != nil ==> len(result) == 0
+//@   ensures old(b.Err) == nil && b.Err == nil ==> len(b.b) - old(b.off) >= 4 && len(result) == int(be32(b.b, old(b.off))) && b.off == old(b.off) + 4 + len(result)
+//@   ensures old(b.Err) == nil && b.Err != nil ==> b.Err == ErrShortPacket && b.off == len(b.b)
+//@   modifies *b
+
+//@ func (*Buffer).UnmarshalBinary
+//@   property C08
+//@   alloc-bound 2*len(data) + 2*len(b.b) + 128
+//@   ensures bufOK(b) && len(b.b) <= len(data)
+//@   modifies *b, bytes
+
+// ---------------------------------------------------------------------------
+// framing (packets.go)
+
+//@ func readPacket
+//@   property C08
+//@   results pkt, err
+//@   alloc-bound int(maxPacketLength) + 64
+//@   requires r != nil
+//@   deadcode ret4
+//@   assert before call io.ReadFull#2: len(arg1) >= 5 && uint32(len(arg1)) <= maxPacketLength && len(arg1) == int(length)
+//@   ensures err == nil ==> len(pkt) >= 5 && uint32(len(pkt)) <= maxPacketLength
+
+//@ func newExtendedPacket
+//@   trusted
+//@   ensures result != nil
+//@   modifies nothing
+// (registered extension constructors are assumed to return a fresh non-nil value and to have no side effects)
+
+//@ func newPacketFromType
+//@   property C08, C07
+//@   results pkt, err
+//@   ensures err == nil ==> pkt != nil
+//@   modifies nothing
+
+//@ func (*RawPacket).UnmarshalFrom
+//@   property C08
+//@   results err
+//@   requires bufOK(buf)
+//@   modifies *p, *buf
+
+//@ func (*RawPacket).UnmarshalBinary
+//@   property C08
+//@   alloc-bound len(data) + 64
+
+//@ func (*RawPacket).ReadFrom
+//@   property C08
+//@   requires r != nil
+//@   alloc-bound int(maxPacketLength) + 64
+
+//@ func (*RequestPacket).UnmarshalFrom
+//@   property C08
+//@   alloc-bound 4*len(buf.b) + 128
+//@   results err
+//@   requires bufOK(buf)
+
+//@ func (*RequestPacket).UnmarshalBinary
+//@   property C08
+//@   alloc-bound 5*len(data) + 256
+
+//@ func (*RequestPacket).ReadFrom
+//@   property C08
+//@   requires r != nil
+//@   alloc-bound 5*int(maxPacketLength) + 512
+
+// ---------------------------------------------------------------------------
+// attributes (attrs.go)
+
+//@ func (*Attributes).XXX_UnmarshalByFlags
+//@   property C08
+//@   alloc-bound 4*len(buf.b) + 64
+//@   results err
+//@   requires bufOK(buf)
+//@   loop 1 invariant bufOK(buf) && buf.b == old(buf.b)
+//@   ensures bufOK(buf) && buf.b == old(buf.b)
+//@   ensures err == buf.Err
+//@   modifies *a, *buf, elems ExtendedAttribute
+
+//@ func (*Attributes).UnmarshalFrom
+//@   property C08
+//@   alloc-bound 4*len(buf.b) + 64
+//@   results err
+//@   requires bufOK(buf)
+//@   ensures bufOK(buf) && buf.b == old(buf.b)
+//@   ensures err == buf.Err
+//@   modifies *a, *buf, elems ExtendedAttribute
+
+//@ func (*Attributes).UnmarshalBinary
+//@   property C08
+//@   alloc-bound 4*len(data) + 64
+
+//@ func (*ExtendedAttribute).UnmarshalFrom
+//@   property C08
+//@   results err
+//@   requires bufOK(buf)
+//@   ensures bufOK(buf) && buf.b == old(buf.b)
+//@   ensures err == buf.Err
+//@   modifies *e, *buf
+
+//@ func (*ExtendedAttribute).UnmarshalBinary
+//@   property C08
+
+//@ func (*NameEntry).UnmarshalFrom
+//@   property C08
+//@   alloc-bound 4*len(buf.b) + 64
+//@   results err
+//@   requires bufOK(buf)
+//@   ensures bufOK(buf) && buf.b == old(buf.b)
+//@   ensures err == buf.Err
+//@   modifies *e, *buf, elems ExtendedAttribute
+
+//@ func (*NameEntry).UnmarshalBinary
+//@   property C08
+//@   alloc-bound 4*len(data) + 64
+
+//@ func (*ExtensionPair).UnmarshalFrom
+//@   property C08
+//@   results err
+//@   requires bufOK(buf)
+//@   ensures bufOK(buf) && buf.b == old(buf.b)
+//@   ensures err == buf.Err
+//@   ensures err == nil && old(buf.Err) == nil ==> buf.off >= old(buf.off) + 8
+//@   modifies *e, *buf
+
+//@ func (*ExtensionPair).UnmarshalBinary
+//@   property C08
+
+//@ func (*NamePacket).UnmarshalPacketBody
+//@   property C08
+//@   alloc-bound 4*len(buf.b) + 128
+//@   results err
+//@   requires bufOK(buf)
+//@   loop 1 invariant bufOK(buf) && buf.b == old(buf.b)
+//@   loop 1 invariant 0 <= i && i <= count && len(p.Entries) == i && cap(p.Entries) == count
+//@   ensures bufOK(buf)
+
+//@ func (*InitPacket).UnmarshalBinary
+//@   property C08, C19
+//@   alloc-bound 2*len(data) + 1024
+//@   loop 1 invariant bufOK(buf) && (buf.Err == nil || buf.off == len(buf.b)) && len(buf.b) == len(data) && len(p.Extensions) >= 0 && len(p.Extensions) * 8 <= buf.off
+
+//@ func (*VersionPacket).UnmarshalBinary
+//@   property C08, C19
+//@   alloc-bound 2*len(data) + 1024
+//@   loop 1 invariant bufOK(buf) && (buf.Err == nil || buf.off == len(buf.b)) && len(buf.b) == len(data) && len(p.Extensions) >= 0 && len(p.Extensions) * 8 <= buf.off
+
+// ---------------------------------------------------------------------------
+// per-packet body decoders (generated list)
+
+//@ func (*AttrsPacket).UnmarshalPacketBody
+//@   property C08
+//@   alloc-bound 4*len(buf.b) + 128
+//@   results err
+//@   requires bufOK(buf)
+//@   ensures bufOK(buf)
+
+//@ func (*ClosePacket).UnmarshalPacketBody
+//@   property C08
+//@   alloc-bound 4*len(buf.b) + 128
+//@   results err
+//@   requires bufOK(buf)
+//@   ensures bufOK(buf)
+
+//@ func (*DataPacket).UnmarshalPacketBody
+//@   property C08
+//@   alloc-bound 4*len(buf.b) + 128
+//@   results err
+//@   requires bufOK(buf)
+//@   ensures bufOK(buf)
+
+//@ func (*ExtendedPacket).UnmarshalPacketBody
+//@   property C08
+//@   alloc-bound 4*len(buf.b) + 128
+//@   results err
+//@   requires bufOK(buf)
+
+//@ func (*ExtendedReplyPacket).UnmarshalPacketBody
+//@   property C08
+//@   alloc-bound 4*len(buf.b) + 128
+//@   results err
+//@   requires bufOK(buf)
+
+//@ func (*FSetstatPacket).UnmarshalPacketBody
+//@   property C08
+//@   alloc-bound 4*len(buf.b) + 128
+//@   results err
+//@   requires bufOK(buf)
+//@   ensures bufOK(buf)
+
+//@ func (*FStatPacket).UnmarshalPacketBody
+//@   property C08
+//@   alloc-bound 4*len(buf.b) + 128
+//@   results err
+//@   requires bufOK(buf)
+//@   ensures bufOK(buf)
+
+//@ func (*HandlePacket).UnmarshalPacketBody
+//@   property C08
+//@   alloc-bound 4*len(buf.b) + 128
+//@   results err
+//@   requires bufOK(buf)
+//@   ensures bufOK(buf)
+
+//@ func (*LStatPacket).UnmarshalPacketBody
+//@   property C08
+//@   alloc-bound 4*len(buf.b) + 128
+//@   results err
+//@   requires bufOK(buf)
+//@   ensures bufOK(buf)
+
+//@ func (*MkdirPacket).UnmarshalPacketBody
+//@   property C08
+//@   alloc-bound 4*len(buf.b) + 128
+//@   results err
+//@   requires bufOK(buf)
+//@   ensures bufOK(buf)
+
+//@ func (*OpenDirPacket).UnmarshalPacketBody
+//@   property C08
+//@   alloc-bound 4*len(buf.b) + 128
+//@   results err
+//@   requires bufOK(buf)
+//@   ensures bufOK(buf)
+
+//@ func (*OpenPacket).UnmarshalPacketBody
+//@   property C08
+//@   alloc-bound 4*len(buf.b) + 128
+//@   results err
+//@   requires bufOK(buf)
+//@   ensures bufOK(buf)
+
+//@ func (*ReadDirPacket).UnmarshalPacketBody
+//@   property C08
+//@   alloc-bound 4*len(buf.b) + 128
+//@   results err
+//@   requires bufOK(buf)
+//@   ensures bufOK(buf)
+
+//@ func (*ReadLinkPacket).UnmarshalPacketBody
+//@   property C08
+//@   alloc-bound 4*len(buf.b) + 128
+//@   results err
+//@   requires bufOK(buf)
+//@   ensures bufOK(buf)
+
+//@ func (*ReadPacket).UnmarshalPacketBody
+//@   property C08
+//@   alloc-bound 4*len(buf.b) + 128
+//@   results err
+//@   requires bufOK(buf)
+//@   ensures bufOK(buf)
+
+//@ func (*RealPathPacket).UnmarshalPacketBody
+//@   property C08
+//@   alloc-bound 4*len(buf.b) + 128
+//@   results err
+//@   requires bufOK(buf)
+//@   ensures bufOK(buf)
+
+//@ func (*RemovePacket).UnmarshalPacketBody
+//@   property C08
+//@   alloc-bound 4*len(buf.b) + 128
+//@   results err
+//@   requires bufOK(buf)
+//@   ensures bufOK(buf)
+
+//@ func (*RenamePacket).UnmarshalPacketBody
+//@   property C08
+//@   alloc-bound 4*len(buf.b) + 128
+//@   results err
+//@   requires bufOK(buf)
+//@   ensures bufOK(buf)
+
+//@ func (*RmdirPacket).UnmarshalPacketBody
+//@   property C08
+//@   alloc-bound 4*len(buf.b) + 128
+//@   results err
+//@   requires bufOK(buf)
+//@   ensures bufOK(buf)
+
+//@ func (*SetstatPacket).UnmarshalPacketBody
+//@   property C08
+//@   alloc-bound 4*len(buf.b) + 128
+//@   results err
+//@   requires bufOK(buf)
+//@   ensures bufOK(buf)
+
+//@ func (*StatPacket).UnmarshalPacketBody
+//@   property C08
+//@   alloc-bound 4*len(buf.b) + 128
+//@   results err
+//@   requires bufOK(buf)
+//@   ensures bufOK(buf)
+
+//@ func (*StatusPacket).UnmarshalPacketBody
+//@   property C08
+//@   alloc-bound 4*len(buf.b) + 128
+//@   results err
+//@   requires bufOK(buf)
+//@   ensures bufOK(buf)
+
+//@ func (*SymlinkPacket).UnmarshalPacketBody
+//@   property C08
+//@   alloc-bound 4*len(buf.b) + 128
+//@   results err
+//@   requires bufOK(buf)
+//@   ensures bufOK(buf)
+
+//@ func (*WritePacket).UnmarshalPacketBody
+//@   property C08
+//@   alloc-bound 4*len(buf.b) + 128
+//@   results err
+//@   requires bufOK(buf)
+//@   ensures bufOK(buf)
